@@ -1,6 +1,6 @@
 #!/bin/bash
-# tools/seed_collect.sh <prop> <n>: copy an agent's verified change from /tmp/wt/<prop>/_out/<n> into /verif/seeded/<prop>-<n>/
-P="$1"; N="$2"; src="/tmp/wt/$P/_out/$N"; dst="/verif/seeded/$P-$N"
+# tools/seed_collect.sh <prop> <n> [offset]: copy an agent's verified change from /tmp/wt/<prop>/_out/<n> into /verif/seeded/<prop>-<n>/
+P="$1"; N="$2"; OFF="${3:-0}"; src="/tmp/wt/$P/_out/$N"; dst="/verif/seeded/$P-$((N+OFF))"
 mkdir -p "$dst"
 cp "$src/patch.diff" "$dst/patch.diff"
 cp "$src/demo.rs" "$dst/demo.rs"
